@@ -12,20 +12,6 @@ import (
 	"github.com/verily-src/fhirpath-go/internal/verifrt"
 )
 
-// verifProbe is the compiled expression's stand-in: it records whether (and with what) it was evaluated.
-type verifProbe struct {
-	ran int
-	ctx *expr.Context
-	in  system.Collection
-}
-
-func (p *verifProbe) Evaluate(ctx *expr.Context, in system.Collection) (system.Collection, error) {
-	p.ran++
-	p.ctx = ctx
-	p.in = in
-	return system.Collection{system.Integer(7)}, nil
-}
-
 // value kinds: 0 System value, 1 FHIR primitive, 2 complex element, 3 collection of those, 4 empty collection,
 // 5 collection nesting an unsupported Go value, 6 unsupported Go value, 7 nil
 func verifEnvValue(label string) (any, bool) {
